@@ -449,7 +449,7 @@ func (vc *VC) preamble() string {
 	fmt.Fprintf(&b, "(declare-fun str.len_ (Str) %s)\n", idx)
 	fmt.Fprintf(&b, "(declare-fun str.at_ (Str %s) %s)\n", idx, vc.intSort(8))
 	b.WriteString("(declare-fun str.concat_ (Str Str) Str)\n")
-	b.WriteString("(declare-fun root (Ref) Int)\n")
+	b.WriteString("(define-fun-rec root ((r Ref)) Int (ite ((_ is obj) r) (oid r) (ite ((_ is fld) r) (root (fbase r)) (ite ((_ is elem) r) (root (ebase r)) (ite ((_ is glob) r) (- (- 2) (gid r)) (- 1))))))\n")
 	fmt.Fprintf(&b, "(declare-fun addr_of (Ref) %s)\n", vc.intSort(64))
 	fmt.Fprintf(&b, "(declare-fun ptr_of (%s) Ref)\n", vc.intSort(64))
 	return b.String()
